@@ -392,6 +392,14 @@ func (w *World) enabled() []core.WCmd {
 			anyLog = true
 		}
 	}
+	if p.Bulk > 0 && !w.bulkDone {
+		for _, in := range w.insts {
+			if in.log != nil && !in.dead && in.state == stRunning && !w.cacheParked(in) && w.instParked(in) == 0 {
+				add(60, core.Cmd{A: "bulk", I: in.idx})
+				break
+			}
+		}
+	}
 	if anyLog && w.nextItem < len(w.items) {
 		for _, in := range w.insts {
 			if in.log == nil || in.dead || (in.state != stRunning && in.state != stStopped) || w.cacheParked(in) {
@@ -523,6 +531,38 @@ func (w *World) exec(c core.Cmd) bool {
 			return false
 		}
 		time.Sleep(in.untilNextTick())
+		return true
+	case "bulk":
+		in := w.inst(c.I)
+		if in == nil || in.log == nil || in.dead || in.state != stRunning || w.bulkDone || w.prof.Bulk == 0 {
+			return false
+		}
+		w.bulkDone = true
+		l, inc := in.log, in.inc
+		for i := 0; i < w.prof.Bulk; i++ {
+			it := w.makeItem(500000+i, 3)
+			it.ID = -3000000 - i
+			w.orc.itemsByKey[it.Key] = it
+			w.smu.Lock()
+			w.orc.admitted[it.Key]++
+			w.smu.Unlock()
+			e := *it.Entry
+			f, _ := l.VerifAddLeafToPool(context.Background(), &e, false)
+			go func() {
+				_, err := f(context.Background())
+				if in.inc != inc || in.dead {
+					select {}
+				}
+				w.smu.Lock()
+				if err == nil {
+					w.bulkOK++
+				} else {
+					w.bulkErr++
+				}
+				w.smu.Unlock()
+			}()
+		}
+		w.sim.Probe("bulk.submitted")
 		return true
 	case "adv":
 		if c.N <= 0 {
